@@ -72,23 +72,23 @@ type replayVar struct {
 }
 
 type pathResult struct {
-	outcome     string // "ok","infeasible","assume","unsupported","unwind","panic","engine-error","violation"
-	msg         string
-	trace       []decision
-	alts        [][]decision
-	violations  []violation
-	covers      map[string]bool
-	asserts     map[string]*assertRec
-	observes    []string
-	nInstr      int64
-	funcs       map[*ssa.Function]int64
-	nontrivial  bool
-	unknowns    int
-	pcSize      int
-	sampleModel []replayVar
+	outcome       string // "ok","infeasible","assume","unsupported","unwind","panic","engine-error","violation"
+	msg           string
+	trace         []decision
+	alts          [][]decision
+	violations    []violation
+	covers        map[string]bool
+	asserts       map[string]*assertRec
+	observes      []string
+	nInstr        int64
+	funcs         map[*ssa.Function]int64
+	nontrivial    bool
+	unknowns      int
+	pcSize        int
+	sampleModel   []replayVar
 	sampleChoices []int
-	hasSample   bool
-	initSkipped int
+	hasSample     bool
+	initSkipped   int
 }
 
 type machine struct {
@@ -107,6 +107,7 @@ type machine struct {
 	choices []int
 
 	globals map[*ssa.Global]*value
+	race    *raceState
 	inited  map[*ssa.Package]bool
 
 	res *pathResult
@@ -132,20 +133,20 @@ type machine struct {
 	stopOnVio bool
 	concrete  *concreteFeed // non-nil in concrete (differential / replay-in-engine) mode
 
-	permuteMaps int
-	prov        map[*Term]provenance
-	nonnegCache map[*Term]bool
-	spec        bool
-	noMerge     bool
-	merges      int
+	permuteMaps  int
+	prov         map[*Term]provenance
+	nonnegCache  map[*Term]bool
+	spec         bool
+	noMerge      bool
+	merges       int
 	decidedTerms map[*Term]bool
-	model       map[string]*big.Int
-	modelPC     int
-	inInit      int
-	stack       []*ssa.Function
-	preemptMax  int
-	preemptions int
-	foreign     interface{}
+	model        map[string]*big.Int
+	modelPC      int
+	inInit       int
+	stack        []*ssa.Function
+	preemptMax   int
+	preemptions  int
+	foreign      interface{}
 }
 
 // concreteFeed supplies concrete values for vrt nondeterminism.
